@@ -132,7 +132,9 @@ inline void run_pairs(vf::Run& r, const std::vector<Call>& calls, long bound2_li
 // Cold start: like run_pairs for the pairs of the same group (and every call with itself), bound 1, but every execution —
 // also the solo reference run — happens in a freshly forked child of this process, which never calls the thunks itself:
 // each schedule contains the FIRST calls of its process (lazily built tables, caches keyed by the first caller).
-inline void run_pairs_cold(vf::Run& r, const std::vector<Call>& calls, bool all_pairs) {
+// wide = false: every call with itself and with the NEXT call of the same group (a chain through each group: every call
+// meets a different call of its function as first caller and as second); wide = true: every same-group pair.
+inline void run_pairs_cold(vf::Run& r, const std::vector<Call>& calls, bool wide) {
   vp::Arena one(1), two(2);
   std::vector<std::string> solo(calls.size());
   std::vector<bool> have(calls.size(), false);
@@ -150,7 +152,12 @@ inline void run_pairs_cold(vf::Run& r, const std::vector<Call>& calls, bool all_
   };
   for (size_t i = 0; i < calls.size(); i++)
     for (size_t j = i; j < calls.size(); j++) {
-      if (!all_pairs && calls[i].group != calls[j].group) continue;
+      if (calls[i].group != calls[j].group) continue;
+      if (!wide && j != i) {
+        size_t nxt = i + 1;
+        while (nxt < calls.size() && calls[nxt].group != calls[i].group) nxt++;
+        if (j != nxt) continue;
+      }
       if (!r.take()) continue;
       r.note("cold concurrent " + calls[i].group + " || " + calls[j].group);
       if (r.wants_desc()) r.desc("fresh process per schedule: " + calls[i].name + " || " + calls[j].name + ": every schedule with <= 1 preemption");
